@@ -6,9 +6,10 @@ import NmVerif.Containers.Core
     buffer (utl::array<T,Capacity>, `= {}`: value-initialised) ↦ `cells` (always `Capacity` cells)
     size_                                                      ↦ `size`
 
-  Mirrored: default ctor size 0; `static_vector(n)`: `size_(n)` — *unchecked*, also for n > Capacity (l.56-59);
+  Mirrored (state of the code after the `fix:` commits C19-static-vector-oversize-ctor / -grow-init):
+  default ctor size 0; `static_vector(n)`: `size_(n <= Capacity ? n : 0)`;
   variadic ctor `buffer{a,b,ts…}`, rest value-initialised; copy ctor copies the whole buffer and size_;
-  `resize(n)`: ignored when `n > Capacity`, otherwise only `size_ = n` — cells keep whatever they held (l.73-79);
+  `resize(n)`: ignored when `n > Capacity`, otherwise the cells `size_ … n-1` are value-initialised and `size_ = n`;
   `operator=`: `resize(other.size_)` + copy of `size_` elements (l.81-89); `push_back`: ignored when full (l.91-98);
   element access unchecked.  Core Lean only.
 -/
@@ -29,9 +30,10 @@ def store (v : SVec α) (i : Nat) (c : Cell α) (L : Ledger) : SVec α × Ledger
 def mkDefault (c : Nat) (zero : α) (L : Ledger) : SVec α × Ledger :=
   ({ cells := List.replicate c (some zero), size := 0 }, L)
 
-/-- `static_vector(n)`: no capacity check -/
+/-- `static_vector(n)`: refused (empty) above the capacity -/
 def mkSized (c : Nat) (zero : α) (n : Nat) (L : Ledger) : SVec α × Ledger :=
-  ({ cells := List.replicate c (some zero), size := n }, L)
+  ({ cells := List.replicate c (some zero), size := if n ≤ c then n else 0 }, L)
+
 
 /-- `static_vector(a, b, ts…)` (more than `Capacity` arguments do not compile) -/
 def mkVariadic (c : Nat) (zero : α) (vs : List α) (L : Ledger) : SVec α × Ledger :=
@@ -39,33 +41,35 @@ def mkVariadic (c : Nat) (zero : α) (vs : List α) (L : Ledger) : SVec α × Le
 
 def mkCopy (o : SVec α) (L : Ledger) : SVec α × Ledger := (o, L)
 
-def resize (c : Nat) (v : SVec α) (n : Nat) (L : Ledger) : SVec α × Ledger :=
-  if n ≤ c then ({ v with size := n }, L) else (v, L)
+def resize (c : Nat) (zero : α) (v : SVec α) (n : Nat) (L : Ledger) : SVec α × Ledger :=
+  if n ≤ c then ({ cells := initRange zero v.cells v.size n, size := n },
+                 L.flagIf (decide (v.size < n ∧ v.cells.length < n)) .oob)
+  else (v, L)
 
 /-- `for i < size_: buffer[i] = other.buffer[i]` -/
 def copyFrom (v o : SVec α) (L : Ledger) : SVec α × Ledger :=
   ({ v with cells := o.cells.take v.size ++ v.cells.drop v.size },
    L.flagIf (decide (o.cells.length < v.size ∨ v.cells.length < v.size)) .oob)
 
-def assign (c : Nat) (v o : SVec α) (L : Ledger) : SVec α × Ledger :=
-  let r := resize c v o.size L
+def assign (c : Nat) (zero : α) (v o : SVec α) (L : Ledger) : SVec α × Ledger :=
+  let r := resize c zero v o.size L
   r.1.copyFrom o r.2
 
-def assignSelf (c : Nat) (v : SVec α) (L : Ledger) : SVec α × Ledger :=
-  let r := resize c v v.size L
+def assignSelf (c : Nat) (zero : α) (v : SVec α) (L : Ledger) : SVec α × Ledger :=
+  let r := resize c zero v v.size L
   r.1.copyFrom r.1 r.2
 
-def push (c : Nat) (v : SVec α) (a : α) (L : Ledger) : SVec α × Ledger :=
+def push (c : Nat) (zero : α) (v : SVec α) (a : α) (L : Ledger) : SVec α × Ledger :=
   if c < v.size + 1 then (v, L)
   else
-    let r := resize c v (v.size + 1) L
+    let r := resize c zero v (v.size + 1) L
     r.1.store (r.1.size - 1) (some a) r.2
 
 /-- `push_back(buffer[i])`: no reallocation, the reference stays valid -/
-def pushAt (c : Nat) (v : SVec α) (i : Nat) (L : Ledger) : SVec α × Ledger :=
+def pushAt (c : Nat) (zero : α) (v : SVec α) (i : Nat) (L : Ledger) : SVec α × Ledger :=
   if c < v.size + 1 then (v, L)
   else
-    let r := resize c v (v.size + 1) L
+    let r := resize c zero v (v.size + 1) L
     match v.cells[i]? with
     | some x => r.1.store (r.1.size - 1) x r.2
     | none => r.1.store (r.1.size - 1) none (r.2.flag .oob)
@@ -86,11 +90,11 @@ def svecImpl (c : Nat) (zero : α) : Impl (SVec α) α where
   mkSized := SVec.mkSized c zero
   mkVariadic := SVec.mkVariadic c zero
   mkCopy := SVec.mkCopy
-  assign := SVec.assign c
-  assignSelf := SVec.assignSelf c
-  push := SVec.push c
-  pushAt := SVec.pushAt c
-  resize := SVec.resize c
+  assign := SVec.assign c zero
+  assignSelf := SVec.assignSelf c zero
+  push := SVec.push c zero
+  pushAt := SVec.pushAt c zero
+  resize := SVec.resize c zero
   write := SVec.write
   read := SVec.read
   destroy := fun _ L => L
@@ -100,8 +104,8 @@ def svecImpl (c : Nat) (zero : α) : Impl (SVec α) α where
 /-- `utl::array<T,N>`: an aggregate; `array<T,N> a{}` / `a{v…}` (missing elements value-initialised);
     no resize / push_back (the history interpreter skips them for this kind: modelled as no-ops) -/
 def arrImpl (n : Nat) (zero : α) : Impl (SVec α) α where
-  mkDefault := SVec.mkSized n zero n
-  mkSized := fun _ => SVec.mkSized n zero n
+  mkDefault := fun L => ({ cells := List.replicate n (some zero), size := n }, L)
+  mkSized := fun _ L => ({ cells := List.replicate n (some zero), size := n }, L)
   mkVariadic := fun vs L => ({ (SVec.mkVariadic n zero vs L).1 with size := n }, L)
   mkCopy := SVec.mkCopy
   assign := fun _ o L => (o, L)
